@@ -13,4 +13,7 @@ func c07(p *core.Program, r *core.Report) {
 	}
 	n := b.report(r, "R1", fxRowCache, nil)
 	r.Floor("C07/R1 storage-mutating functions (origins)", n, 8)
+	r.Rule("R5", "affected-row coverage: wherever a set of affected rows is built and handed to a position importer, every row a written position belongs to is in it — each pos(row, col) computed there inserts that same row variable, and rows computed inside a helper (BSI exists/sign/bit rows) lie within the affine range of keys inserted (one symbol: the bit depth)")
+	r.NotDecided = "value-level equality of reads with the sequential model for all histories; which block/row an invalidation names beyond the syntactic row variable and the affine BSI range"
+	c07Rows(p, r, b)
 }
